@@ -37,6 +37,13 @@ impl<const N: u32> PxE2<{ N }> {
             };
         }
 
+        // a*b - c = a*b + (-c) and c - a*b = (-a)*b + c: posit negation is exact
+        match op {
+            MulAddType::SubC => ui_c = ui_c.wrapping_neg(),
+            MulAddType::SubProd => ui_a = ui_a.wrapping_neg(),
+            MulAddType::Add => {}
+        }
+
         let sign_a = Self::sign_ui(ui_a);
         let sign_b = Self::sign_ui(ui_b);
         let sign_c = Self::sign_ui(ui_c); //^ (op == softposit_mulAdd_subC);
